@@ -1,5 +1,6 @@
 import VaxisModel.Lemmas.VxfwErr
 import VaxisModel.Lemmas.VxfwHover
+import VaxisModel.Lemmas.VxfwHoverErr
 
 /-!
 # C15 — handlers that return an error
@@ -109,16 +110,10 @@ example :
       (.batch [.focus 1, .redraw])).trace) =
     (0, [.call 0 .focusOut .target, .eff .redraw]) := by decide
 
-/-- **Hover state when `Run` ends at a failing handler call — the full statement, NOT proved (round 4).**  For every behaviour
-with failing calls (returned errors AND the failures inside `focusWidget` that are only logged), every history of trees showing a
-widget at most once under a point: the MouseEnter / MouseLeave notifications delivered so far alternate per widget, and if no error
-was returned the entered widgets are exactly those of the hit list.  What IS proved about this situation:
-`error_ends_run_at_failing_call` (the failing call is the last thing that happened), `C15Body.mouse_update_body_error_keeps_hits`
-(a failing hover handler leaves `m.lastHits` as it was, so the widgets already told MouseLeave are still recorded as entered —
-the entered set is then a SUBSET of the recorded hit list, not equal to it), and `C15.hover_alternates` / `C15Body.hover_alternates_bodies`
-for histories without failing calls.  A proof needs the trace-extension lemmas of `Lemmas/Vxfw.lean` (`Ext`, `HQ`) and the two
-notification-loop inductions of `Lemmas/VxfwHover.lean` redone for the error-aware functions (`eHandleCommand`, `eNotifyLoop` with its
-early return); see notes/C15.md. -/
+/-- **Hover state when `Run` ends at a failing handler call — the full statement** (proved below: `hover_after_error`).  For
+every behaviour with failing calls (returned errors AND the failures inside `focusWidget` that are only logged), every history of
+trees showing a widget at most once under a point: the MouseEnter / MouseLeave notifications delivered so far alternate per widget,
+and if no error was returned the entered widgets are exactly those of the hit list. -/
 def hover_after_error_full : Prop :=
   ∀ (e : EOracle) (fuel : Nat) (root : Id) (t0 : STree) (steps : List Step),
     HitsNodup t0 → (∀ st ∈ steps, StepOk st) →
@@ -126,5 +121,30 @@ def hover_after_error_full : Prop :=
     ((eRun e fuel root t0 steps).2 = false →
       ∃ ent, hoverRun [] (eRun e fuel root t0 steps).1.trace = some ent ∧
         ∀ w, w ∈ ent ↔ w ∈ (eRun e fuel root t0 steps).1.lastHits.map Hit.w)
+
+/-- **`hover_after_error`**: the statement above holds.  With handlers that fail anywhere — in a capture / target / bubble offer, in
+a MouseEnter / MouseLeave notification of `update`, `mouseExit`, `mouseEnter` (the loop returns at once, the hit list is NOT
+replaced), or silently inside `focusWidget` — the hover notifications in the trace alternate per widget at every point where `Run`
+can end, and as long as no error is returned the entered widgets are exactly the widgets of the hit list.  (When `update` returns
+an error the entered set is only a subset of the recorded hit list: the widgets already told MouseLeave are still recorded —
+`C15Body.mouse_update_body_error_keeps_hits` — which is harmless because `Run` returns.)  Proof: `Lemmas/VxfwHoverErr.lean` — the
+error-aware `handleCommand` extends the trace by non-hover entries only (`eq_eHandleCommand`), the two notification loops with
+their early return (`leave_loop_e`, `enter_loop_e`), then the invariant through every arm of the Run loop. -/
+theorem hover_after_error : hover_after_error_full := by
+  intro e fuel root t0 steps h0 hs
+  obtain ⟨⟨ent, h1⟩, h2⟩ := hov_eRun e fuel root t0 steps h0 hs
+  refine ⟨by rw [h1]; rfl, fun hb => ?_⟩
+  obtain ⟨ent', hr, _, _, hm⟩ := h2 hb
+  exact ⟨ent', hr, hm⟩
+
+/-- Non-vacuity: widget 1's MouseLeave handler fails when the pointer moves from widget 1 to widget 2: `Run` returns the error, the
+trace so far (Enter 0, Enter 1, Leave 0, Leave 1 = the failing call) alternates, and the recorded hit list is still the old one
+`[0, 1]` although both widgets have been told MouseLeave. -/
+example :
+    let o : Oracle := ⟨fun _ _ _ _ => .nil, fun _ => false⟩
+    let e : EOracle := ⟨o, fun w ev _ _ => w = 1 ∧ ev = .mouseLeave⟩
+    let t : STree := .node 0 9 9 [(0, 0, 0, .node 1 2 2 []), (4, 4, 0, .node 2 2 2 [])]
+    let r := eRun e 3 0 t [.ev (.mouse 1 1), .ev (.mouse 5 5)]
+    r.2 = true ∧ (hoverRun [] r.1.trace).isSome = true ∧ r.1.lastHits.map Hit.w = [0, 1] := by decide
 
 end VaxisModel.Props.C15Err
